@@ -46,6 +46,7 @@ def value_of(tid):
 def body(tid, kind, arg=None):
     _log("start", tid)
     try:
+        esim.S.step("task.run")
         if kind == "ok":
             return value_of(tid)
         if kind == "raise":
